@@ -18,7 +18,7 @@ EXTRA_TARGETS = ["Model/DataStateQ.vo"]
 GEN_PREFIXES = []
 ASSUMPTIONS = ["a history ends at the first error exit (verif.util.error terminates the program)",
                "PIT randomisation (variables with x0/x1) is outside the model: see the known finding",
-               "ensemble-derived fields are not part of the request menu"]
+               "ensemble MEMBERS are requested as fields of their own (modelled as further per-input arrays); quantile/threshold fields derived from the ensemble are not part of the request menu"]
 ALL = 99
 LEVEL = "proof"
 
@@ -31,6 +31,9 @@ def menu(ds, sizes):
     m = [(["obs", "fcst"], 0, ALL, 0), (["obs"], 0, 3, 0), (["fcst"], 0, 3, 0), (["obs", "fcst"], 0, 3, 0),
          (["obs"], 0, ALL, 0), (["obs", "fcst"], k1, ALL, 0), (["obs", "fcst"], 0, 1, 0), (["obs"], k1, 2, 0),
          (["fcst", e], 0, ALL, 0), (["fcst"], k1, ALL, 0), (["obs", e], k1, 3, 0), (["fcst"], 0, 0, 0)]
+    if all("ens0" in i["fields"] and "ens1" in i["fields"] for i in ds["inputs"] + ([ds["cfg"]["clim"]] if "clim" in ds["cfg"] else [])):
+        # ensemble members are fields of their own: two different members must never share a cache entry
+        m = m[:8] + [(["ens0"], 0, 3, 0), (["ens1"], 0, 3, 0), (["ens1"], k1, ALL, 0), (["obs", "ens0"], 0, ALL, 0)]
     return [r for r in m if r[2] == ALL or int(sizes[r[2]]) > 0]
 
 
@@ -115,6 +118,11 @@ def _explore(out, tier, seed, facts, replay):
         ds = datagen.gen_dataset(rng, options=(rng.random() < 0.3))
         if rng.random() < 0.5:
             ds["cfg"].pop("clim", None)
+        if rng.random() < 0.5:
+            for inp in ds["inputs"] + ([ds["cfg"]["clim"]] if "clim" in ds["cfg"] else []):
+                nt_, nl_, ns_ = len(inp["times"]), len(inp["leads"]), len(inp["locs"])
+                for mname in ("ens0", "ens1"):
+                    inp["fields"][mname] = datagen.gen_cube(rng, nt_, nl_, ns_, rng.choice([0, 0.1, 0.3]))
         d = datagen.impl_data(ds)
         if isinstance(d, tuple) or len(d.times) == 0:
             continue
